@@ -58,7 +58,7 @@ func (P) Describe() harness.Description {
 			"Oracle: Handle never panics out; undecodable => error returned and the previous rules stay in force; decodable => exactly its valid rules are reported, field for field (wire round trip), and govern probe traffic; empty => cleared; identical redelivery => nothing changes, including controller state (a private-window flow rule keeps its count). " +
 			"File source (40% of runs): a real RefreshableFileDataSource on a scratch file with the stub watcher; ops write / truncate / rename / remove / move away and back unchanged while the source retries its watch; the simulator delivers each file-system event delayed, duplicated or coalesced; after quiescence following the last delivered event the managers equal the file's content (previous rules if undecodable), and are empty after remove / rename. " +
 			"non-trivial = a good payload, an undecodable one and a redelivery occurred in one run; distinct = hash(config, ops)",
-		Assumptions: []string{"the hotspot wire format is datasource.HotspotRule (it has no ParamKey field); specific items use the documented value kinds", "events are delivered one at a time with quiescence (synctest.Wait) in between"},
+		Assumptions: []string{"hotspot specific items use the documented value kinds", "events are delivered one at a time with quiescence (synctest.Wait) in between"},
 		Real:        []string{"ext/datasource handlers, parsers, updaters, hotspot converter", "ext/datasource/file.RefreshableFileDataSource incl. its watcher goroutine", "all rule managers", "api.Entry for probes", "real scratch file"},
 		Stub:        []string{"fsnotify.Watcher (verif/sim/simfsnotify: events injected by the simulator)", "goroutine scheduling inside the bubble (testing/synctest quiescence)", "util.Clock (virtual clock)"},
 	}
@@ -70,6 +70,9 @@ func (P) Gen(rng *sim.Rng, tier string) *harness.Case {
 	for i := 0; i < n; i++ {
 		m := rng.Intn(5)
 		r := rs.RS{M: m, Res: rng.Intn(nRes), Idx: i, Tw: rng.Intn(3)}
+		if rng.Chance(0.5) {
+			r.Hid = rng.Intn(rs.NumHidden[m]) // every field of the wire format takes part in some rule
+		}
 		switch rng.Intn(10) {
 		case 0, 1, 2, 3, 4:
 			r.Var = 0
@@ -151,6 +154,7 @@ type wireHotspot struct {
 	MetricType        int32          `json:"metricType"`
 	ControlBehavior   int32          `json:"controlBehavior"`
 	ParamIndex        int            `json:"paramIndex"`
+	ParamKey          string         `json:"paramKey"`
 	Threshold         int64          `json:"threshold"`
 	MaxQueueingTimeMs int64          `json:"maxQueueingTimeMs"`
 	BurstCount        int64          `json:"burstCount"`
@@ -189,11 +193,7 @@ func encode(m int, list []rs.RS) ([]byte, []interface{}) {
 			arr, described = append(arr, x), append(described, *x)
 		case rs.Hotspot:
 			x := rs.BuildHotspot(r)
-			x.ParamKey = "" // the wire format cannot carry it
-			if r.Var == 6 {
-				x.ParamIndex = 0
-			}
-			w := wireHotspot{x.ID, x.Resource, int32(x.MetricType), int32(x.ControlBehavior), x.ParamIndex, x.Threshold, x.MaxQueueingTimeMs, x.BurstCount, x.DurationInSec, x.ParamsMaxCapacity, nil}
+			w := wireHotspot{x.ID, x.Resource, int32(x.MetricType), int32(x.ControlBehavior), x.ParamIndex, x.ParamKey, x.Threshold, x.MaxQueueingTimeMs, x.BurstCount, x.DurationInSec, x.ParamsMaxCapacity, nil}
 			if r.Tw == 2 {
 				w.SpecificItems = wireItems
 			}
@@ -474,7 +474,7 @@ func (P) Exec(c *harness.Case) *harness.Outcome {
 		return o
 	}
 	for _, r := range cfg.Table {
-		if r.M < 0 || r.M > 4 || r.Res >= nRes || (r.M == rs.Hotspot && r.Var == 6) {
+		if r.M < 0 || r.M > 4 || r.Res >= nRes || false {
 			return o
 		}
 	}
